@@ -544,8 +544,32 @@ def data_delay(ctx, pre):
            why or 'the write data is self.inputs delayed by %d stage(s); samples_pretrigger is %d' % (delay, pre))
 
 
+def check_front_end(ctx):
+    """The stream front end reads the capture back while the core analyzer sits idle -- and an idle core accepts a trigger.
+    A trigger passed through during the read-back restarts the capture and overwrites the buffer under the reader, so the
+    core's trigger may be driven only in the front end's own idle state (the state it leaves on a trigger)."""
+    C = 'StreamILA'
+    ir = ctx.ir(C, MOD, allow_opaque=True)
+    fsm = ctx.the_fsm(ir)
+    core = [s.name for s in ir.submodules if getattr(getattr(s, 'obj', None), 'clsname', None) == CLS]
+    # the core is created in the constructor and kept as an attribute: find its trigger port by the driver of <x>.trigger
+    trg = [a for a in ir.assigns if a.lhs.canon().endswith('.trigger') and a.lhs.canon() != TRIG and a.rhs is not None and not q.is_zero(a.rhs)]
+    ctx.need(trg, 'the statement that passes the trigger on to the core analyzer in %s' % C)
+    leaves_on_trigger = {e.src for e in fsm.edges if q.has(e, TRIG)}
+    def in_idle(a):
+        if q.state_of(a) == fsm.init:
+            return True
+        # written outside the FSM but qualified with `fsm.ongoing(idle)`
+        return any(p and x == 'ongoing(%s:%s)' % (fsm.id, fsm.init) for x, p in q.atoms(q.fold(ir, a)))
+    bad = [a for a in trg if not in_idle(a) or fsm.init not in leaves_on_trigger]
+    ctx.ob('C56.front-end-trigger', C + '.core-trigger', not bad, (bad[0] if bad else trg[0]).loc,
+           'the core analyzer may be triggered only from the idle state of the stream front end (while a capture is read back the '
+           'core is idle and would start over, overwriting the samples being read): %s' % [q.fmt(a) for a in bad])
+
+
 def run(ctx):
     check_symbolic(ctx)
+    check_front_end(ctx)
     check_wiring(ctx)
     depths = QUICK_DEPTHS if ctx.tier != 'thorough' else tuple(sorted(set(QUICK_DEPTHS + THOROUGH_DEPTHS)))
     total = 0
